@@ -4,4 +4,5 @@ CONSTANTS
   MaxFields = 3
   MethodLists = "q"
   Exported = {TRUE}
+  Tagged = {FALSE}
 INVARIANTS TypeOK TwinSame GroupingIrrelevant OutputShape Export
